@@ -117,8 +117,36 @@ Shapes == [
   \* RawContent (first field of a struct keeps the struct's encoding for Marshal)
   rawc     |-> Struct({"rawcontent"}, <<L("int", {}), L("str", {}), L("oid", {}), SetOf({}, L("int", {}))>>),
   nestrawc |-> Struct({}, <<Struct({"rawcontent"}, <<L("int", {}), L("str", {})>>), L("bigint", {}),
-                             L("raw", {})>>)
+                             L("raw", {})>>),
+  \* ---- length octets: content lengths at every boundary of the length forms (short form <= 127, 81 xx <= 255,
+  \* 82 xx xx <= 65535, 83 xx xx xx above).  "lenN" = the leaf has N content octets (BIT STRING: including the
+  \* padding-count octet, so N >= 1); "bodyN" = the SEQUENCE body has N octets (one OCTET STRING child of the
+  \* stated length; body 0 is the empty SEQUENCE, body 1 does not exist in BER).  Decoder side: the defects
+  \* nonMinimalLength / leadingZeroLength / indefiniteLength placed on these nodes are the forms 81 7f, 82 00 7f,
+  \* 82 00 ff, 83 00 01 00, 83 00 ff ff, 84 00 01 00 00: not among the documented lax malformations, so rejected
+  \* in every mode.  Encoder side: RoundTrip at these lengths, byte-exact, cross-checked with encoding/asn1's Marshal.
+  oct0     |-> L("bytes", {"len0"}),        oct1     |-> L("bytes", {"len1"}),
+  oct127   |-> L("bytes", {"len127"}),      oct128   |-> L("bytes", {"len128"}),
+  oct255   |-> L("bytes", {"len255"}),      oct256   |-> L("bytes", {"len256"}),
+  oct65535 |-> L("bytes", {"len65535"}),    oct65536 |-> L("bytes", {"len65536"}),
+  bit1     |-> L("bitstring", {"len1"}),    bit127   |-> L("bitstring", {"len127"}),
+  bit128   |-> L("bitstring", {"len128"}),  bit255   |-> L("bitstring", {"len255"}),
+  bit256   |-> L("bitstring", {"len256"}),  bit65535 |-> L("bitstring", {"len65535"}),
+  bit65536 |-> L("bitstring", {"len65536"}),
+  seq0     |-> Struct({"body0"}, <<>>),
+  seq2     |-> Struct({"body2"}, <<L("bytes", {"len0"})>>),
+  seq127   |-> Struct({"body127"}, <<L("bytes", {"len125"})>>),
+  seq128   |-> Struct({"body128"}, <<L("bytes", {"len126"})>>),
+  seq255   |-> Struct({"body255"}, <<L("bytes", {"len252"})>>),
+  seq256   |-> Struct({"body256"}, <<L("bytes", {"len253"})>>),
+  seq65535 |-> Struct({"body65535"}, <<L("bytes", {"len65531"})>>),
+  seq65536 |-> Struct({"body65536"}, <<L("bytes", {"len65532"})>>)
 ]
+
+LengthShapes == {"oct0", "oct1", "oct127", "oct128", "oct255", "oct256", "oct65535", "oct65536",
+                 "bit1", "bit127", "bit128", "bit255", "bit256", "bit65535", "bit65536",
+                 "seq0", "seq2", "seq127", "seq128", "seq255", "seq256", "seq65535", "seq65536"}
+LengthFormDefects == {"nonMinimalLength", "leadingZeroLength", "indefiniteLength"}
 
 Count(v) == CASE v = 0 -> 2 [] v = 1 -> 0 [] OTHER -> 3   \* elements of every SEQUENCE OF / SET OF
 
@@ -136,6 +164,7 @@ Wrap(w, t) ==
 \* behaviour shared by the fork, outside this property
 WrapOK(w, t) == /\ ~(w = "explicit" /\ (t.k \in {"raw", "any"} \/ "rawcontent" \in t.p))
                 /\ ~(w \in {"seqof", "setof", "optional"} /\ t.k = "any")
+                /\ ~(w = "optional" /\ t.k = "struct" /\ t.kids = <<>>)   \* a present empty struct is the zero value: Marshal omits it
 \* paths of T's root inside the container (one per element for SEQUENCE OF / SET OF)
 WrapRoots(w, v) ==
   CASE w = "none"     -> {<<>>}
@@ -324,6 +353,10 @@ Rejected == c.defect \in AlwaysRejected => (E.strict = "reject" /\ E.mode = "rej
 BenignAccepted == c.defect \in Benign => (E.strict = "accept" /\ E.mode = "accept" /\ E.std = "accept")
 \* Marshal(Unmarshal(b)) = b for strict DER
 RoundTrip == c.defect = "none" => (E.rt /\ E.rtMode /\ E.rtStd)
+\* length octets: strict DER round-trips byte-exactly at every length-form boundary (fork and upstream), and no
+\* decoder in any mode accepts another length form
+LengthRoundTrip == (c.shape \in LengthShapes /\ c.defect = "none") => (E.rt /\ E.rtMode /\ E.rtStd)
+LengthFormsRejected == c.defect \in LengthFormDefects => (E.strict = "reject" /\ E.mode = "reject" /\ E.std = "reject")
 RawContentKeeps == (E.mode = "accept" /\ UnderRawContent(Tree(c), c.path)) => E.rtMode
 
 Init == c \in Cases
